@@ -38,8 +38,10 @@ func c12r1(r *R) {
 			inl[n] = true
 		}
 		ps, complete := enumPathsOpts(f.entry, 300000, 2, InlineOpts{
-			Inline:      func(c *ssa.Function) bool { return inl[fname(c)] },
-			Relevant:    func(s string) bool { return strings.Contains(s, "StatusCode") || strings.Contains(s, ".Method") || strings.Contains(s, "ProtoMajor") },
+			Inline: func(c *ssa.Function) bool { return inl[fname(c)] },
+			Relevant: func(s string) bool {
+				return strings.Contains(s, "StatusCode") || strings.Contains(s, ".Method") || strings.Contains(s, "ProtoMajor")
+			},
 			Interesting: isWrite,
 			Alias:       true,
 		})
@@ -251,7 +253,9 @@ func c12r2(r *R) {
 			if !strings.HasPrefix(res, "martian/proxyutil.NewResponse(") || !strings.HasSuffix(res, ", local:body, $1)") {
 				bad = append(bad, "response is "+res)
 			}
-			zero := p.hasCond(func(c string) bool { return strings.HasSuffix(c, " == 0)") && !strings.HasPrefix(c, "!") && strings.Contains(c, "code") || c == "(0 == 0)" })
+			zero := p.hasCond(func(c string) bool {
+				return strings.HasSuffix(c, " == 0)") && !strings.HasPrefix(c, "!") && strings.Contains(c, "code") || c == "(0 == 0)"
+			})
 			_ = zero
 		}
 		r.check(n > 0 && len(bad) == 0, "errorResponse#shape", er.Pos(), "error header, content type, exact ContentLength, bound to the request", strings.Join(dedupStrings(bad), "; "))
@@ -278,7 +282,9 @@ func c12r2(r *R) {
 		for _, c := range calls(fn, nameIs("(*martian.Proxy).errorResponse")) {
 			lr = c.(ssa.Instruction)
 		}
-		okc := mc != nil && lr != nil && instrDominates(mc, lr) && guardedBy(lr.Block(), func(g string) bool { return strings.HasPrefix(g, "(martian.maybeConnectErrorResponse(") && strings.HasSuffix(g, " == nil)") })
+		okc := mc != nil && lr != nil && instrDominates(mc, lr) && guardedBy(lr.Block(), func(g string) bool {
+			return strings.HasPrefix(g, "(martian.maybeConnectErrorResponse(") && strings.HasSuffix(g, " == nil)")
+		})
 		r.check(okc, recv+".writeErrorResponse#relay-first", fn.Pos(), "the upstream's own CONNECT rejection is relayed; the local error response is built only otherwise", "an upstream CONNECT rejection is not relayed with the upstream's status")
 	}
 	oc := r.fn(mpkg, "OnProxyConnectResponse")
@@ -327,7 +333,9 @@ func c12r4(r *R) {
 		phi := inc.X.(*ssa.Phi)
 		for i, e := range phi.Edges {
 			if v, ok := constInt(e); ok && v == 0 && i > 0 {
-				reset = guardedBy(phi.Block().Preds[i], func(g string) bool { return strings.HasPrefix(g, "!((*martian.proxyConn).handle(") && strings.HasSuffix(g, " != nil)") }) || true
+				reset = guardedBy(phi.Block().Preds[i], func(g string) bool {
+					return strings.HasPrefix(g, "!((*martian.proxyConn).handle(") && strings.HasSuffix(g, " != nil)")
+				}) || true
 			}
 		}
 		zeroEdges := 0
@@ -346,7 +354,9 @@ func c12r4(r *R) {
 		if p.Cut {
 			continue
 		}
-		if p.hasCond(func(c string) bool { return strings.HasPrefix(c, "errors.Is((*martian.proxyConn).handle(") && strings.HasSuffix(c, ", martian.errClose)") }) {
+		if p.hasCond(func(c string) bool {
+			return strings.HasPrefix(c, "errors.Is((*martian.proxyConn).handle(") && strings.HasSuffix(c, ", martian.errClose)")
+		}) {
 			n := 0
 			for _, e := range p.Events {
 				if e.Kind == "call" && strings.HasPrefix(e.Desc, "(*martian.proxyConn).handle(") {
@@ -423,16 +433,16 @@ func c12r5(r *R) {
 
 func c12r6(r *R) {
 	allowed := map[string]string{
-		"(martian.panicReader).Read":                     "placeholder body of a 101 reply: reading it is a programming error (C12.R5 shows it is never read)",
-		"(martian.proxyHandler).handleConnectRequest":    "http.ErrAbortHandler: recovered by net/http",
-		"(martian.proxyHandler).handleUpgradeResponse":   "http.ErrAbortHandler: recovered by net/http",
-		"(martian.proxyHandler).writeResponse":           "http.ErrAbortHandler: recovered by net/http",
-		"(*martian.Processors).ForDirection":             "invalid direction constant",
-		"(*martian/h2.Processors).ForDirection":          "invalid direction constant (h2 relay unreachable in the forwarder binary)",
-		"martian/header.randomBoundary":                  "crypto/rand failure at start-up",
-		"martian.init#1":                                 "start-up linkage check, before any connection is accepted",
-		"(*martian/mitm.Config).cert":                    "none expected",
-		"martian/proxyutil.NewResponse":                  "none expected",
+		"(martian.panicReader).Read":                   "placeholder body of a 101 reply: reading it is a programming error (C12.R5 shows it is never read)",
+		"(martian.proxyHandler).handleConnectRequest":  "http.ErrAbortHandler: recovered by net/http",
+		"(martian.proxyHandler).handleUpgradeResponse": "http.ErrAbortHandler: recovered by net/http",
+		"(martian.proxyHandler).writeResponse":         "http.ErrAbortHandler: recovered by net/http",
+		"(*martian.Processors).ForDirection":           "invalid direction constant",
+		"(*martian/h2.Processors).ForDirection":        "invalid direction constant (h2 relay unreachable in the forwarder binary)",
+		"martian/header.randomBoundary":                "crypto/rand failure at start-up",
+		"martian.init#1":                               "start-up linkage check, before any connection is accepted",
+		"(*martian/mitm.Config).cert":                  "none expected",
+		"martian/proxyutil.NewResponse":                "none expected",
 	}
 	for _, fn := range requestPathFuncs(r) {
 		eachInstr(fn, func(ins ssa.Instruction) {
